@@ -357,6 +357,17 @@ def run_batch(pid, *, tier, budget_s, max_index, jobs=16, extra=None, base=None)
     extra = dict(extra or {})
     base = util.base_seed() if base is None else base
     open_sigs = load_known_findings().get(pid, {})
+    P = load_prop(pid)
+    if hasattr(P, "driver_init"):
+        extra.update(P.driver_init(base))
+    try:
+        return _run_batch(pid, tier, budget_s, max_index, jobs, extra, base, open_sigs)
+    finally:
+        if hasattr(P, "driver_fini"):
+            P.driver_fini()
+
+
+def _run_batch(pid, tier, budget_s, max_index, jobs, extra, base, open_sigs):
     slots = list(range(util.H_SLOTS))
     aggs = []
     # templates run `jobs` at a time; each has the whole budget (budget is per wave)
